@@ -426,7 +426,7 @@ impl Property for C19 {
         }
     }
     fn rule(&self) -> &'static str {
-        "each case k: type code number k mod 120 (O in LDCQ x V in CBMIG x C in NBLDCQ, so every code is rendered 25 / 2000 times per run); one abstract QP model (n<=5 variables, m<=4 constraints, lower-triangle Q0/Qi entries incl. diagonal, default+non-default b0 incl. explicit zeros and entries equal to the default, c_l/c_u/l/u with values at and beyond the file's infinity value (1e20, 1e30 or 10000) of either sign on either side, coefficients far below f64::EPSILON (1e-18, 5e-324, 1e-100) among b0 and bi entries, equal sides, types section for M/G, names, arbitrary starting points) rendered by the harness's own writer with random layout (comment lines !/#/%, blank lines, trailing commentary, blank or tab separator, case of code and sense keyword) and loaded with qplib::load_file (one text in five with load_file_bytes, decoded again); every 4th case additionally one single-fault text (bad type code / garbage count / negative count / number / index / variable type / sense keyword / truncation). Non-trivial = well-formed text with n >= 1; distinct = fingerprint of the rendered text."
+        "each case k: type code number k mod 120 (O in LDCQ x V in CBMIG x C in NBLDCQ, so every code is rendered 25 / 2000 times per run); one abstract QP model (n<=5 variables, m<=4 constraints, lower-triangle Q0/Qi entries incl. diagonal, default+non-default b0 incl. explicit zeros and entries equal to the default, c_l/c_u/l/u with values at and beyond the file's infinity value (1e20, 1e30 or 10000) of either sign on either side, coefficients far below f64::EPSILON (1e-18, 5e-324, 1e-100) among b0 and bi entries, equal sides, types section for M/G, names, arbitrary starting points) rendered by the harness's own writer with random layout (comment lines !/#/%, blank lines, trailing commentary, blank or tab separator, indented / right-aligned scalar lines, case of code and sense keyword) and loaded with qplib::load_file (one text in five with load_file_bytes, decoded again); every 4th case additionally one single-fault text (bad type code / garbage count / negative count / number / index / variable type / sense keyword / truncation). Non-trivial = well-formed text with n >= 1; distinct = fingerprint of the rendered text."
     }
     fn assumptions(&self) -> Vec<&'static str> {
         vec![
